@@ -368,6 +368,40 @@ def run():
         ns = {'__name__': 'c13_family'}
         exec('f = ' + text, ns)
         plain_lambda(H, text, ns['f'], names)
+    # wrapping a function that is itself the product of wraps: __wrapped__ of the outer wrapper is the function it was
+    # given (one level), not the innermost one, and signature/metadata are still those of that function
+    def base(a, b=2, *, k=None):
+        "base doc"
+        return ('base', a, b, k)
+    for how in ('wraps', 'update_wrapper'):
+        def mid_impl(*a, **kw):
+            return base(*a, **kw)
+        mid = funcutils.wraps(base)(mid_impl)
+        def outer_impl(*a, **kw):
+            return mid(*a, **kw)
+        ok, outer = H.guard((lambda: funcutils.wraps(mid)(outer_impl)) if how == 'wraps' else (lambda: funcutils.update_wrapper(outer_impl, mid)),
+                            'metadata_equal', 'funcutils.' + how, 'wrapping a function produced by wraps; building raises', 'two levels of wraps')
+        H.ev(key=('double-wrap', how), nontrivial=True, part='double_wrap', sample='two levels of ' + how)
+        if not ok:
+            continue
+        snip = HDR + ('def base(a, b=2, *, k=None): return a\nmid = wraps(base)(lambda *a, **kw: base(*a, **kw))\n'
+                      'outer = wraps(mid)(lambda *a, **kw: mid(*a, **kw))\nassert outer.__wrapped__ is mid and mid.__wrapped__ is base\n')
+        H.check(getattr(outer, '__wrapped__', None) is mid, 'metadata_equal', 'funcutils.' + how,
+                'wrapping a function produced by wraps (__wrapped__ must be the function given, one level)', 'two levels of wraps',
+                '__wrapped__ is %r' % (getattr(outer, '__wrapped__', None),), snip)
+        H.check(getattr(mid, '__wrapped__', None) is base, 'metadata_equal', 'funcutils.wraps', 'any function (__wrapped__)',
+                'two levels of wraps', 'inner __wrapped__ is %r' % (getattr(mid, '__wrapped__', None),), snip)
+        H.check(str(inspect.signature(outer, follow_wrapped=False)) == str(inspect.signature(base)) and outer.__name__ == 'base'
+                and outer.__doc__ == 'base doc' and outer(1, k=3) == ('base', 1, 2, 3), 'signature_equal', 'funcutils.' + how,
+                'wrapping a function produced by wraps', 'two levels of wraps',
+                'signature %s name %r' % (inspect.signature(outer, follow_wrapped=False), outer.__name__), snip)
+        # hide_wrapped: no __wrapped__ at all on the outer wrapper, also when the wrapped function carries one
+        ok2, hidden = H.guard(lambda: funcutils.update_wrapper(lambda *a, **kw: mid(*a, **kw), mid, hide_wrapped=True), 'metadata_equal',
+                              'funcutils.update_wrapper', 'hide_wrapped on a function produced by wraps; building raises', 'two levels')
+        if ok2:
+            H.check(not hasattr(hidden, '__wrapped__'), 'metadata_equal', 'funcutils.update_wrapper',
+                    'hide_wrapped=True on a function that itself has __wrapped__', 'two levels of wraps',
+                    '__wrapped__ is still present: %r' % (getattr(hidden, '__wrapped__', None),))
     H.bounds['signatures_enumerated'] = n_sig
     H.finish()
 
